@@ -54,6 +54,8 @@ struct Sink {
     pos: usize,
     shorts: Arc<Mutex<(u64, u64)>>,
     last_interrupted: bool,
+    /// upper bound on what this sink accepts in total
+    cap: usize,
 }
 
 impl Write for Sink {
@@ -77,7 +79,13 @@ impl Write for Sink {
             _ => buf.len(),
         };
         self.last_interrupted = false;
-        self.data.lock().expect("sink").extend_from_slice(&buf[..n]);
+        let mut data = self.data.lock().expect("sink");
+        if data.len() + n > self.cap {
+            // far more than was ever fed in: code under test that duplicates data must not be
+            // able to exhaust memory; the run ends with a write error and is reported
+            return Err(io::Error::other("sink received far more bytes than were written"));
+        }
+        data.extend_from_slice(&buf[..n]);
         Ok(n)
     }
     fn flush(&mut self) -> io::Result<()> {
@@ -113,6 +121,7 @@ pub fn run_one(input: &[u8], chunks: &[usize], sink: &[u8], kind: &str, finish_b
                 pos: off,
                 shorts: stats.clone(),
                 last_interrupted: false,
+                cap: 8 * input.len() + 4096,
             },
             data,
         )
